@@ -213,6 +213,23 @@ def binary_worlds(sc, r, tier):
             lost = before - versions(A, B)
             if lost and all(x["rc"] == 0 for x in rr):
                 viol.append({"world": "ignore file hides synchronised files on one side", "strategy": strat, "why": "versions on neither side after two error-free runs: %r" % sorted(lost)[:3]})
+        # (7) (faa3381) the same relative spelling `a b` in two different directories names two different pairs; and one pair typed in two
+        # ways (`a b`, `a/ b/`, `./a ./b`) is one pair
+        base = os.path.join(sc.dir, "bw-spell-%d" % k); X, Y = base + "/X", base + "/Y"
+        put(X + "/a/f", b"x-f"); put(X + "/b/g", b"x-g"); put(Y + "/a/f", b"y-f-never-synchronised"); put(Y + "/a/h", b"y-h"); put(Y + "/b/k", b"y-k")
+        r1 = world.run_sy(["--bidirectional", "a", "b", "-q"], sc, cwd=X)
+        before = versions(Y + "/a", Y + "/b")
+        r2 = world.run_sy(["--bidirectional", "a", "b", "-q"], sc, cwd=Y)
+        n += 1
+        lost = before - versions(Y + "/a", Y + "/b")
+        if lost and r2["rc"] == 0:
+            viol.append({"world": "the same spelling `a b` in two directories", "why": "after `sy -b a b` in one directory, the first `sy -b a b` in ANOTHER directory lost versions %r with exit 0 (it used the first pair's state)" % sorted(lost)[:3]})
+        os.remove(X + "/a/g") if os.path.exists(X + "/a/g") else None
+        spelled = [["a/", "b/"], ["./a", "./b"], [X + "/a", X + "/b"]][k % 3]
+        r3 = world.run_sy(["--bidirectional"] + spelled + ["-q", "--max-delete", "0"], sc, cwd=X)
+        n += 1
+        if r3["rc"] == 0 and (os.path.exists(X + "/a/g") or os.path.exists(X + "/b/g")):
+            viol.append({"world": "one pair typed in two ways", "why": "g was synchronised by `sy -b a b`, deleted on one side, and `sy -b %s` brought it back (a=%s b=%s): the second spelling opened another state database" % (" ".join(spelled), os.path.exists(X + "/a/g"), os.path.exists(X + "/b/g"))})
         # (3) the conflict name the rename strategy is about to take is a file of the user's on the OTHER side
         import time
         base = os.path.join(sc.dir, "bw-cname-%d" % k); A, B = base + "/A", base + "/B"
